@@ -496,6 +496,12 @@ func (e *orderEngine) rawEffects(i ssa.Instruction, forSummary bool) []rawEffect
 		if isCommutativeUpdate(x) {
 			return nil
 		}
+		if lazyInitStore(x) {
+			// `if x.m == nil { x.m = map…{} }`: whichever entry comes first, the same empty
+			// container — no order effect, but still a write (operand purity sees it)
+			out = append(out, rawEffect{Kind: "lazyinit", Target: x.Addr, ValConst: true, Field: lastField(x.Addr), Why: "lazy initialisation at " + e.p.pos(x.Pos())})
+			return out
+		}
 		if isStringConcatOnto(x) {
 			out = append(out, rawEffect{Kind: "concat", Target: x.Addr, Field: lastField(x.Addr), Why: "string concatenation at " + e.p.pos(x.Pos())})
 			return out
@@ -1765,7 +1771,7 @@ func runOrder(c *Check, rule string, e *orderEngine, sel func(*ssa.Function) boo
 			key := fmt.Sprintf("%s|range %s", fnName(f), rangeDesc(l.rng.X))
 			sinks := e.classify(l)
 			if len(sinks) == 0 {
-				c.Okf(rule, key, p.pos(l.rng.Pos()), "no order-sensitive effect is reachable from this map iteration")
+				c.Okf(rule, key, p.pos(l.rng.Pos()), "no order-sensitive effect is reachable from this map iteration").LocalSeed = loopSeed(l)
 				continue
 			}
 			nFlag++
@@ -1777,7 +1783,7 @@ func runOrder(c *Check, rule string, e *orderEngine, sel func(*ssa.Function) boo
 				}
 				w = append(w, fmt.Sprintf("%s: %s", p.pos(s.ins.Pos()), s.what))
 			}
-			c.Ob(rule, key, p.pos(l.rng.Pos()), Flag, "map iteration order reaches an order-sensitive effect: "+sinks[0].what, w...)
+			c.Ob(rule, key, p.pos(l.rng.Pos()), Flag, "map iteration order reaches an order-sensitive effect: "+sinks[0].what, w...).LocalSeed = loopSeed(l)
 		}
 	}
 	// reflected map keys behave like a map iteration: evaluate them before the
@@ -2053,4 +2059,53 @@ func singleEntryGuarded(r *ssa.Range) bool {
 		}
 	}
 	return false
+}
+
+// lazyInitStore: a fresh empty container is stored into a location on the
+// outcome where a load of that same location was nil.
+func lazyInitStore(st *ssa.Store) bool {
+	switch v := st.Val.(type) {
+	case *ssa.MakeMap:
+	case *ssa.MakeSlice:
+		if k, ok := constInt(v.Len); !ok || k != 0 {
+			return false
+		}
+	default:
+		return false
+	}
+	addrKey := exprKey(st.Addr, 0)
+	found := false
+	eachInstr(st.Parent(), func(_ *ssa.BasicBlock, i ssa.Instruction) {
+		ld, ok := i.(*ssa.UnOp)
+		if !ok || found || ld.Op != token.MUL || exprKey(ld.X, 0) != addrKey || ld.Referrers() == nil {
+			return
+		}
+		for _, r := range *ld.Referrers() {
+			bin, ok := r.(*ssa.BinOp)
+			if !ok || (bin.Op != token.EQL && bin.Op != token.NEQ) || !(isNilConst(bin.X) || isNilConst(bin.Y)) {
+				continue
+			}
+			for _, br := range branchesOn(bin) {
+				nilSucc, other := br.TrueSucc, br.FalseSucc
+				if bin.Op == token.NEQ {
+					nilSucc, other = other, nilSucc
+				}
+				if len(nilSucc.Preds) == 1 && (nilSucc == st.Block() || nilSucc.Dominates(st.Block())) && !other.Dominates(st.Block()) {
+					found = true
+				}
+			}
+		}
+	})
+	return found
+}
+
+// loopSeed: a name-independent fingerprint of the loop's own blocks (header,
+// body, exit arms), so that a table row written for this loop keeps applying
+// when the rest of the function changes or the ranged map is renamed or moved.
+func loopSeed(l *mapLoop) string {
+	var blocks []*ssa.BasicBlock
+	for b := range l.body {
+		blocks = append(blocks, b)
+	}
+	return "loop" + fingerprintBlocks(blocks)
 }
